@@ -79,10 +79,9 @@ Definition run_stat_raw (masked : bool) (clk : positive) (procstat : bytes)
    name, status (through the front end), cpu_num *)
 Definition run_stat_race (r : kstat) (first : sread) (second : option sread) (exists_after : bool) : jv :=
   let s2 := match second with Some x => x | None => SData (k_stat r) end in
+  let w {A} (f : bytes -> outcome A) := wrapped f first s2 (SData (k_stat r)) exists_after exists_after in
   JL [ JB (k_stat r);
-       JL [ jv_outcome jb (wrapped name first s2 exists_after);
-            jv_outcome jb (status_public (wrapped status first s2 exists_after));
-            jv_outcome jz (wrapped cpu_num first s2 exists_after) ];
+       JL [ jv_outcome jb (w name); jv_outcome jb (status_public (w status)); jv_outcome jz (w cpu_num) ];
        (if wf_kstat r then
           JL [ jnone;
                match first, second, fld 3 r with
